@@ -25,6 +25,13 @@ impl Script {
         self.decisions.push((menu_len, c));
         c
     }
+    /// Pretend the forced prefix was consumed (used when the run aborted by a panic).
+    pub fn mark_aborted(&mut self) {
+        while self.decisions.len() < self.forced.len() {
+            let c = self.forced[self.decisions.len()];
+            self.decisions.push((c + 1, c));
+        }
+    }
     pub fn choices(&self) -> Vec<usize> {
         self.decisions.iter().map(|d| d.1).collect()
     }
